@@ -105,6 +105,16 @@ func (p *binaryVarPrefixer) DecodeLength(maxLen int, data []byte) (int, int, err
 		prefBytes = append(bytes.Repeat([]byte{0x00}, uint32Size-len(prefBytes)), prefBytes...)
 	}
 
+	// for prefixes longer than 4 bytes the leading bytes must be zero and
+	// the length is held by the last 4 bytes
+	if len(prefBytes) > uint32Size {
+		extra := len(prefBytes) - uint32Size
+		if len(bytes.TrimLeft(prefBytes[:extra], "\x00")) != 0 {
+			return 0, 0, fmt.Errorf(numberOfDigitsInLengthExceeds, len(prefBytes), uint32Size)
+		}
+		prefBytes = prefBytes[extra:]
+	}
+
 	dataLen, err := bytesToInt(prefBytes)
 	if err != nil {
 		return 0, 0, fmt.Errorf("decode length: %w", err)
